@@ -153,6 +153,19 @@ BEHAVIOUR_PRESERVING += [
  ('bp_packed_stride_guard_flipped', [('starky/src/prover.rs', '    if (degree << quotient_degree_bits) < P::WIDTH {', '    if P::WIDTH > (degree << quotient_degree_bits) {')], ['C19'], None),
 ]
 
+BEHAVIOUR_PRESERVING += [
+ ('bp_schedule_guard_rearranged', [('plonky2/src/fri/reduction_strategies.rs', '                    && degree_bits + rate_bits - arity_bits >= cap_height', '                    && degree_bits + rate_bits >= cap_height + arity_bits')], ['C05'], None),
+ ('bp_stark_lde_guard_flipped', [('starky/src/verifier.rs', '        lde_bits >= config.fri_config.rate_bits && lde_bits <= F::TWO_ADICITY,', '        config.fri_config.rate_bits <= lde_bits && lde_bits <= F::TWO_ADICITY,')], ['C18'], None),
+ ('bp_batch_mix_commuted', [('plonky2/src/batch_fri/verifier.rs', '            old_eval = old_eval * challenges.fri_betas[i] + eval;', '            old_eval = eval + challenges.fri_betas[i] * old_eval;')], ['C05'], None),
+ ('bp_helper_one_pair_commuted', [('starky/src/lookup.rs', '                    consumer.constraint(combin * h - f0);', '                    consumer.constraint(h * combin - f0);')], ['C10'], None),
+ ('bp_partition_map_renamed', [('plonky2/src/plonk/permutation_argument.rs', '        let mut partition = HashMap::<_, Vec<_>>::new();', '        let mut classes = HashMap::<_, Vec<_>>::new();'), ('plonky2/src/plonk/permutation_argument.rs', '                partition.entry(x_parent).or_default().push(w);', '                classes.entry(x_parent).or_default().push(w);'), ('plonky2/src/plonk/permutation_argument.rs', '        let partition = partition.into_values().collect();', '        let partition = classes.into_values().collect();')], ['C02'], None),
+]
+M += [
+ ('r7_schedule_guard_wrong_operand', [('plonky2/src/fri/reduction_strategies.rs', '                    && degree_bits + rate_bits - arity_bits >= cap_height', '                    && degree_bits + rate_bits - cap_height >= cap_height')], ['C05'], 'R05.8'),
+ ('r7_stark_lde_guard_wrong_operand', [('starky/src/verifier.rs', '        lde_bits >= config.fri_config.rate_bits && lde_bits <= F::TWO_ADICITY,', '        lde_bits >= config.fri_config.cap_height && lde_bits <= F::TWO_ADICITY,')], ['C18'], 'R18.9'),
+ ('r7_self_connect', [('plonky2/src/hash/merkle_proofs.rs', '        self.connect_hashes(x.circuit_digest, y.circuit_digest);', '        self.connect_hashes(x.circuit_digest, x.circuit_digest);')], ['C02'], 'R02.11'),
+]
+
 def run(name, subs, checks):
     args = [os.path.join(V, 'selftest', 'mutrun.py')]
     for f, o, n in subs:
